@@ -435,6 +435,11 @@ func (s *Server) cmdEvalUnified(scriptIsSha bool, msg *Message) (res resp.Value,
 		err = errInvalidArgument(numkeysStr)
 		return
 	}
+	if numkeys > uint64(len(vs)) {
+		// more keys announced than arguments given
+		err = errInvalidNumberOfArguments
+		return
+	}
 
 	luaState, err := s.luapool.Get()
 	if err != nil {
